@@ -15,7 +15,8 @@ from numeric import P, inv
 
 LEVEL = "proof"
 RULE = ("for each partitioning (mp, re), order n and excitation class: the "
-        "derived energy / amplitude / residual / expectation-value "
+        "derived energy / amplitude / residual / normalisation factor "
+        "(orders 0-4) / expectation-value "
         "expression is evaluated on model Hamiltonians (3 occupied + 3 "
         "virtual spin orbitals = 20 determinants, random real "
         "antisymmetrised integrals, canonical HF orbital energies for mp, "
@@ -224,6 +225,42 @@ def run(ctx):
                                  "model": {"nocc": 3, "nvirt": 3,
                                            "seed": space.seed},
                                  "derived": val, "explicit": want % P}, True)
+            # wavefunction normalisation factor 1/<Psi|Psi> to fourth
+            # order (needs the explicit wavefunctions to third order; the
+            # product S^(2)*S^(2) first shows up at order 4)
+            if mi == 0:
+                E3, psi3 = space.rspt(variant, 3)
+                model3 = make_model(space, psi3)
+                Sser = []
+                for n in range(5):
+                    Sser.append(sum(psi3[m].dot(psi3[n - m])
+                                    for m in range(n + 1)
+                                    if m <= 3 and n - m <= 3) % P)
+                norm = detspace.series_inv(Sser, 4)
+                for n in range(5):
+                    try:
+                        val = evaluate(model3, gs.norm_factor(n))
+                    except Exception as ex:
+                        ctx.violation(f"C02:norm-exception:{variant}:{n}",
+                                      f"norm_factor({n}) raised {ex!r}", {},
+                                      False)
+                        continue
+                    ctx.case(key=("norm", variant, n, space.seed),
+                             nontrivial=n >= 2, kind=f"norm_factor:{variant}")
+                    if not ctx.obligation(
+                            f"{variant} norm factor order {n} = explicit "
+                            f"1/<Psi|Psi> (model {space.seed})",
+                            val == norm[n]):
+                        ctx.violation(
+                            f"C02:norm_factor:{variant}:order{n}",
+                            f"derived normalisation factor of order {n} "
+                            "differs from the explicit series of 1/<Psi|Psi>",
+                            {"variant": variant, "order": n,
+                             "model": {"nocc": 3, "nvirt": 3,
+                                       "seed": space.seed},
+                             "derived": val, "explicit": norm[n],
+                             "expression": str(gs.norm_factor(n))[:600]},
+                            True)
             # one-particle expectation value (mp)
             if variant == "mp":
                 dmat = [[(numeric._h(space.seed, "d", p, q) % 1999 - 999)
